@@ -10,7 +10,8 @@ squared distances ints in units of 1/4096.  See harness/cont_common.py for the p
     place a x y | move a x y | remove a | pos a | agents
     nbrs x y r incl | dist x1 y1 x2 y2 | heading x1 y1 x2 y2 | oob x y | adj x y
   scenario exp S T cap lo hi [lo hi …]            (one lo hi pair per axis: any number of dimensions ≥ 1)
-    new a | set a x… | get a | remove a | agents
+    new a | set a x… | get a | remove a | agents            (agent-level: `err Attr` on a removed agent object)
+    iadd a dx…   (agent.position += d) | poke a j x   (p = agent.position; p[j] = x)
     radius x… r | knn x… k | nir a r | nn a k
     dists x… [: a b …] | diffs x… [: a b …] | inb x… | correct x…
 -/
@@ -30,6 +31,7 @@ def fmtErr : Err → String
   | .index => "err Index"
   | .value => "err Value"
   | .type => "err Type"
+  | .attr => "err Attr"
 
 def sortNat (l : List Nat) : List Nat := l.mergeSort (fun a b => decide (a ≤ b))
 
@@ -133,24 +135,36 @@ def stepExp (s : ESpace) (nd : Nat) (ws : List String) : ESpace × String :=
   match ws with
   | ["new", a] =>
     match a.toNat? with
-    | some a => if (s.a2i a).isSome then bad else (estep s (.new a), "ok")
+    | some a => if (s.a2i a).isSome || s.gone a then bad else (estep s (.new a), "ok")
     | none => bad
   | "set" :: a :: xs =>
     match a.toNat?, ints xs with
     | some a, some p =>
       if p.length ≠ nd then bad else
-      match setPos s a p with
+      match agentSet s a p with
       | .ok s' => (s', "ok")
       | .error e => (s, fmtErr e)
     | _, _ => bad
+  | "iadd" :: a :: xs =>
+    match a.toNat?, ints xs with
+    | some a, some v =>
+      if v.length ≠ nd then bad else
+      match agentIadd s a v with
+      | .ok s' => (s', "ok")
+      | .error e => (s, fmtErr e)
+    | _, _ => bad
+  | ["poke", a, j, x] =>
+    match a.toNat?, j.toNat?, x.toInt? with
+    | some a, some j, some _ => (s, match agentPoke s a j with | .ok _ => "ok" | .error e => fmtErr e)
+    | _, _, _ => bad
   | ["get", a] =>
     match a.toNat? with
-    | some a => (s, match getPos s a with | .ok p => "ok pos=" ++ fmtPos p | .error e => fmtErr e)
+    | some a => (s, match agentGet s a with | .ok p => "ok pos=" ++ fmtPos p | .error e => fmtErr e)
     | none => bad
   | ["remove", a] =>
     match a.toNat? with
     | some a =>
-      match removeAgent s a with
+      match agentRemove s a with
       | .ok s' => (s', "ok")
       | .error e => (s, fmtErr e)
     | none => bad
@@ -171,12 +185,12 @@ def stepExp (s : ESpace) (nd : Nat) (ws : List String) : ESpace × String :=
     | _, _ => bad
   | ["nir", a, r] =>
     match a.toNat?, r.toInt? with
-    | some a, some r => (s, fmtRes (neighborsInRadius s a r))
+    | some a, some r => (s, fmtRes (agentNir s a r))
     | _, _ => bad
   | ["nn", a, k] =>
     match a.toNat?, k.toNat? with
     | some a, some k =>
-      match getPos s a with
+      match agentGet s a with
       | .error e => (s, fmtErr e)
       | .ok p =>
         match kNearest argsortPart s p (k + 1) with
